@@ -1,5 +1,6 @@
 """C05 -- recorded frames, times and per-step records are consistent."""
 from pyvc.harness import Unit
+from pyvc import harness as _h
 from checks import runner_common as rc, update_common as uc
 
 PROPERTY = "C05"
@@ -24,13 +25,22 @@ def _upd(screening, dynamic):
     return lambda m=None: uc.run_update(m, screening, dynamic, prefixes=("C05.",))
 
 
+
+def _bounded_quick():
+    from checks import runner_native
+    b1, n1 = runner_native.search(0, 5)
+    b2, n2 = runner_native.thermalisation_cases(0)
+    return b1 + b2, n1 + n2
+
+
 def units():
     return [Unit("_run_stage[save]", F + "_run_stage", _stage(True), props=["C05"], timeout=900),
             Unit("_run_stage[thermalisation]", F + "_run_stage", _stage(False), props=["C05"], timeout=900),
             Unit("_run_stage[save, interrupted update]", F + "_run_stage", _stage(True, "update_interrupt"), props=["C05", "C15"], timeout=900),
             Unit("run[stages]", F + "run", lambda m=None: rc.run_run(m, prefixes=P), props=["C05"], timeout=600),
             Unit("update[no screening, static A]", "tdgl.solver.solver:TDGLSolver.update", _upd(False, False), props=["C05"], timeout=900),
-            Unit("update[screening, static A]", "tdgl.solver.solver:TDGLSolver.update", _upd(True, False), props=["C05"], timeout=900)]
+            Unit("update[screening, static A]", "tdgl.solver.solver:TDGLSolver.update", _upd(True, False), props=["C05"], timeout=900),
+            _h.bounded_unit("frames, times and records of real runs [bounded]", "tdgl.solver.runner:Runner / tdgl.solution.data:DynamicsData (real h5py)", "C05", _bounded_quick, "frames_times_and_records_match_the_executable_specification[N<=5 exhaustive]", timeout=900)]
 
 
 def replay_scope(unit, obl):
